@@ -149,7 +149,31 @@ def rel_gap(a, b):
     return float(np.max(np.abs(a - b))) / scale if a.size else 0.0
 
 
-def compare_solve(impl, model, tol):
+def field_floor(case):
+    """absolute floors (conc, flx) below which a returned field is rounding noise: 1e-4 of the natural
+    magnitude of the response (source magnitude, or the unit-impulse weight in footprint mode)"""
+    q = np.asarray(case["q"], dtype=float)
+    ny, nx = q.shape
+    if case["footprint"]:
+        px = py = 0
+        try:
+            xmx, ymx = case["domain"]
+            halo = case.get("halo")
+            halo = max(xmx, ymx) if halo is None else halo
+            px, py = int(halo / (xmx / nx)), int(halo / (ymx / ny))
+        except Exception:  # noqa: BLE001
+            pass
+        fs = 1.0 / ((nx + 2 * px) * (ny + 2 * py))
+    else:
+        fs = float(np.max(np.abs(q))) if q.size else 1.0
+    z = np.asarray(case["z"], dtype=float)
+    Kz = np.asarray(case["profiles"][4], dtype=float)
+    R = float((z[-1] - z[0]) / max(np.min(np.abs(Kz)), 1e-300)) if len(z) > 1 else 1.0
+    cs = max(fs * max(R, 1e-3), abs(case.get("bg", 0.0)))
+    return 1e-4 * cs, 1e-4 * fs
+
+
+def compare_solve(impl, model, tol, floors=(1e-300, 1e-300)):
     """Return (agree: bool, gap: float, what: str)."""
     if impl[0] == "err":
         if model[0] == "err" and model[1] == impl[1]:
@@ -167,8 +191,8 @@ def compare_solve(impl, model, tol):
         g = rel_gap(impl[k], model[k])
         # relative to the field's own max for conc/flx
         if name in ("conc", "flx"):
-            sc = max(float(np.max(np.abs(impl[k]))), 1e-300)
-            g = float(np.max(np.abs(impl[k] - model[k]))) / max(sc, 1e-30) if np.all(np.isfinite(impl[k])) and np.all(np.isfinite(model[k])) else float("inf")
+            sc = max(float(np.max(np.abs(impl[k]))), floors[0 if name == "conc" else 1])
+            g = float(np.max(np.abs(impl[k] - model[k]))) / max(sc, 1e-300) if np.all(np.isfinite(impl[k])) and np.all(np.isfinite(model[k])) else float("inf")
         if g > t:
             return False, g, "%s differs: gap %.3e > %.1e" % (name, g, t)
         if name in ("conc", "flx"):
